@@ -454,14 +454,15 @@ class PredEval:
     def call(self, tm, env, depth):
         fn = T.refname(tm[1])
         args = [self.val(a, env, depth) for a in tm[2]]
-        if fn in ("builtins.issubclass", f"{INSP}._safe_issubclass", f"{INSP}.cached_issubclass"):
+        safe = fn in self.prog.safe_subclass_helpers()
+        if fn in ("builtins.issubclass", f"{INSP}.cached_issubclass") or safe:
             a, b = (args + [None, None])[:2]
             if not isinstance(a, TypeArg):
                 return None
             if a.subscripted or not_a_class(a):
                 # issubclass(list[int], X) / issubclass(<TypeVar>, X) / issubclass(typing.Callable, X) raise TypeError;
                 # the safe form returns False
-                return False if fn.endswith("_safe_issubclass") else ("raises",)
+                return False if safe else ("raises",)
             targets = _flat(b)
             res = False
             for x in targets:
